@@ -172,6 +172,10 @@ func c19NewWorld(t *testing.T, withServer bool) *c19World {
 		e.Symlinks["abs"] = filepath.Join(base, "outside", "secret.txt")
 		e.Symlinks["tile/abs"] = filepath.Join(base, "outside")
 		e.Symlinks["issuer/inlink"] = "../checkpoint" // stays inside: allowed
+		// links to directories that stay inside: following them is allowed, listing them is not
+		e.Symlinks["tile/dlink"] = "data"
+		e.Symlinks["ilink"] = "issuer"
+		e.Symlinks["tile/names/uplink"] = "../0"
 	}
 
 	// witnesses
